@@ -453,12 +453,16 @@ func c07Targets() []func() interface{} {
 		func() interface{} { return &struct{ A interface{} }{A: &[2]int{7, 7}} },
 		func() interface{} { return &struct{ A interface{} }{A: []int{9}} },
 		func() interface{} { return &struct{ A interface{} }{A: map[string]int{"b": 1}} },
-		func() interface{} { return &struct{ A interface{} }{A: map[string]interface{}{"b": struct{ X int }{1}}} },
+		func() interface{} {
+			return &struct{ A interface{} }{A: map[string]interface{}{"b": struct{ X int }{1}}}
+		},
 		func() interface{} { return &struct{ A map[string]*[]int }{A: map[string]*[]int{"b": {9}}} },
 		func() interface{} { return &struct{ A []*[]int }{A: []*[]int{{9}}} },
 		func() interface{} { return &struct{ A [1]*[]int }{A: [1]*[]int{{9}}} },
 		func() interface{} { return &struct{ A map[string][2]int }{A: map[string][2]int{"b": {7, 7}}} },
-		func() interface{} { return &struct{ A map[string]interface{} }{A: map[string]interface{}{"b": struct{ X int }{1}, "x": [1]int{2}}} },
+		func() interface{} {
+			return &struct{ A map[string]interface{} }{A: map[string]interface{}{"b": struct{ X int }{1}, "x": [1]int{2}}}
+		},
 		func() interface{} { return &map[string]interface{}{"a": struct{ B int }{7}, "x": &struct{ A int }{1}} },
 		func() interface{} { return &map[string]*[]int{"a": {9}} },
 		func() interface{} { return &struct{ A *[2]int }{A: &[2]int{}} },
